@@ -360,6 +360,44 @@ pub fn check_match_opt() -> (Vec<Finding>, u64) {
     }
 }
 
+/// A question parsed under any header flags word: its type and class are what
+/// QTYPE::try_from / QCLASS::try_from make of the wire codes (the same representation, so that
+/// ANY stays ANY), and a code those conversions refuse makes the message be refused, whatever
+/// the response bit or opcode says.
+pub fn check_parsed_question(qtype: u16, qclass_raw: u16, word: u16) -> (Vec<Finding>, bool) {
+    let case = json!({"kind": "parsed-question", "qtype": qtype, "qclass": qclass_raw, "word": word});
+    let mut m: Vec<u8> = vec![0x18, 0x20, (word >> 8) as u8, word as u8, 0, 1, 0, 0, 0, 0, 0, 0, 1, b'q', 0];
+    m.extend_from_slice(&qtype.to_be_bytes());
+    m.extend_from_slice(&qclass_raw.to_be_bytes());
+    let r = guarded(|| {
+        let mut bad: Vec<(String, String)> = Vec::new();
+        let want_t = QTYPE::try_from(qtype).ok();
+        let want_c = QCLASS::try_from(qclass_raw & 0x7fff).ok();
+        match Packet::parse(&m) {
+            Err(_) => (bad, false),
+            Ok(p) => {
+                match (p.questions.first(), want_t, want_c) {
+                    (Some(q), Some(t), Some(c)) => {
+                        if q.qtype != t || qtype_num(q.qtype) != qtype {
+                            bad.push(("parsed-question-type".into(), format!("flags word {:#06x}: QTYPE {} parsed as {:?}, the conversion gives {:?}", word, qtype, q.qtype, t)));
+                        }
+                        if q.qclass != c || qclass_num(q.qclass) != qclass_raw & 0x7fff || q.unicast_response != (qclass_raw & 0x8000 != 0) {
+                            bad.push(("parsed-question-class".into(), format!("flags word {:#06x}: QCLASS field {:#06x} parsed as {:?} (unicast {}), the conversion gives {:?}", word, qclass_raw, q.qclass, q.unicast_response, c)));
+                        }
+                    }
+                    (Some(q), _, _) => bad.push(("parsed-question-unsupported-accepted".into(), format!("flags word {:#06x}: QTYPE {} / QCLASS field {:#06x} are refused by the conversions, yet the message parses with {:?} / {:?}", word, qtype, qclass_raw, q.qtype, q.qclass))),
+                    (None, _, _) => bad.push(("parsed-question-missing".into(), "accepted without its question".into())),
+                }
+                (bad, true)
+            }
+        }
+    });
+    match r {
+        Err(p) => (vec![finding(format!("C18|parsed-question|{}", p.sig()), format!("{:?}", p), case)], true),
+        Ok((bad, acc)) => (bad.into_iter().map(|(n, d)| finding(format!("C18|{}", n), d, case.clone())).collect(), acc),
+    }
+}
+
 fn parsed_bodies(code: u16) -> Vec<Vec<u8>> {
     let mut bodies: Vec<Vec<u8>> = Vec::new();
     for n in 0..=10usize {
@@ -542,6 +580,42 @@ pub fn run(ctx: &Ctx) {
         ctx.space("parsed records: every 16-bit CLASS field x every opcode 0..=15 x query / response x 5 shapes (TTL 0 or 5, empty or 4-byte RDATA, types A / ANY(255) / TXT / SOA, each record section): an accepted record reports the wire CLASS and cache-flush bit", total.load(std::sync::atomic::Ordering::Relaxed), "complete");
     }
     {
+        // every QTYPE code under query / response x every opcode, two classes
+        let codes: Vec<u16> = (0..=65535u16).collect();
+        let shards: Vec<&[u16]> = codes.chunks(512).collect();
+        let total = std::sync::atomic::AtomicU64::new(0);
+        par_shards(ctx, &shards, |cs, t: &mut Tally| {
+            let mut n = 0u64;
+            for &c in cs.iter() {
+                let dense = c < 300 || c >= 65280 || (32760..32780).contains(&c);
+                for op in 0..16u16 {
+                    if !dense && op != 0 && op != (c % 16) {
+                        continue;
+                    }
+                    for qr in [0u16, 0x8000, 0x8400] {
+                        for qc in [1u16, 255, 0x8001, 254, 5] {
+                            if !dense && qc != 1 && qc != 255 {
+                                continue;
+                            }
+                            n += 1;
+                            t.evals += 1;
+                            let (f, acc) = check_parsed_question(c, qc, qr | (op << 11));
+                            if acc {
+                                t.nontrivial += 1;
+                            }
+                            t.outcome(if acc { "parsed" } else { "rejected" });
+                            if !f.is_empty() {
+                                ctx.violations(f);
+                            }
+                        }
+                    }
+                }
+            }
+            total.fetch_add(n, std::sync::atomic::Ordering::Relaxed);
+        });
+        ctx.space("parsed questions: every 16-bit QTYPE code x query / response / authoritative response x opcodes (all 16 for codes below 300, private-use and around 32768; two otherwise) x QCLASS fields {IN, ANY, IN with the unicast bit, NONE, 5}: type and class are what the conversions give, refused codes make the message be refused", total.load(std::sync::atomic::Ordering::Relaxed), "complete");
+    }
+    {
         let (f, n) = check_match_opt();
         let mut t = Tally::default();
         t.evals += n;
@@ -558,6 +632,7 @@ pub fn run(ctx: &Ctx) {
 pub fn replay(case: &Value) -> Vec<Finding> {
     match case["kind"].as_str().unwrap_or("") {
         "match-opt" => check_match_opt().0,
+        "parsed-question" => check_parsed_question(case["qtype"].as_u64().unwrap_or(1) as u16, case["qclass"].as_u64().unwrap_or(1) as u16, case["word"].as_u64().unwrap_or(0) as u16).0,
         "code" => check_code(case["code"].as_u64().unwrap_or(0) as u16),
         "parsed" => check_parsed_in(
             case["code"].as_u64().unwrap_or(0) as u16,
